@@ -727,6 +727,20 @@ loop:
 			if strm == nil {
 				// if the stream doesn't exist, create it
 
+				if fr.Type() == FramePriority {
+					// PRIORITY is legal in every stream state, idle and closed
+					// included (RFC 7540 6.3), and this server keeps nothing
+					// of it. It does not open the stream: giving it an entry
+					// in the table left one behind for every id a peer cared
+					// to name, and shadowed the request that later arrived
+					// on that id.
+					if pry, ok := fr.Body().(*Priority); ok && pry.Stream() == fr.Stream() {
+						sc.writeReset(fr.Stream(), ProtocolError)
+					}
+
+					continue
+				}
+
 				if fr.Type() == FrameResetStream {
 					// only send go away on idle stream not on an already-closed stream
 					if fr.Stream() > sc.lastID {
@@ -753,6 +767,21 @@ loop:
 					continue
 				}
 
+				// Only HEADERS opens a stream. Anything else on a stream that
+				// was never opened is a connection error (RFC 7540 5.1), and
+				// has to be told apart from a request before the concurrency
+				// limit is consulted: refusing it with RST_STREAM would treat
+				// the frame as if it had started a stream.
+				if fr.Type() != FrameHeaders {
+					sc.writeGoAway(fr.Stream(), ProtocolError, "frame on idle stream")
+					continue
+				}
+
+				if fr.Stream() < sc.lastID {
+					sc.writeGoAway(fr.Stream(), ProtocolError, "stream ID is lower than the latest")
+					continue
+				}
+
 				// if the client has more open streams than the maximum allowed OR
 				//   the connection is closing, then refuse the stream
 				if openStreams >= int(sc.st.maxStreams) || wasClosing {
@@ -767,11 +796,6 @@ loop:
 
 					sc.writeReset(fr.Stream(), RefusedStreamError)
 
-					continue
-				}
-
-				if fr.Stream() < sc.lastID {
-					sc.writeGoAway(fr.Stream(), ProtocolError, "stream ID is lower than the latest")
 					continue
 				}
 
